@@ -352,6 +352,10 @@ def illformed_variants(rng):
                                    if prof != "b" else "RULE r0 CATEGORY catA CUTOFF 5 NEIGHBOURHOOD 5 CONDITIONS b and a and b\n"]
     yield "repeated-operand-or", ["RULE r0 CATEGORY catA CUTOFF 5 NEIGHBOURHOOD 5 CONDITIONS a or (b and c) or a\n"]
     yield "repeated-operand-group", ["RULE r0 CATEGORY catA CUTOFF 5 NEIGHBOURHOOD 5 CONDITIONS (a and b) or (a and b)\n"]
+    # the same operand again under parentheses that change nothing, at any depth
+    for text in ("cds(a and e) and cds((a and e))", "(a and b) or (a and (b))", "d or cds(a and (b or c)) or cds(a and ((b or c)))",
+                 "(a and (b or c)) or (a and ((b) or c))"):
+        yield "repeated-operand-under-deeper-parentheses", [f"RULE r0 CATEGORY catA CUTOFF 5 NEIGHBOURHOOD 5 CONDITIONS {text}\n"]
     # the options of a minimum() are a set: the same options in another order are the same operand
     for text in ("minimum(2, [a, b, c]) or minimum(2, [c, a, b])", "d and minimum(1, [a, b]) and minimum(1, [b, a])",
                  "d and not minimum(2, [a, b]) and not minimum(2, [b, a])", "d and (minimum(2, [a, c]) or e or minimum(2, [c, a]))"):
